@@ -62,6 +62,17 @@ func init() {
 		p.QuickMs, p.ThorMs = 40_000, 600_000
 		props[p.ID] = p
 	}
+	crashRule := func(nt string) string {
+		return "one batch index = one generated execution: it is first run uninterrupted to learn W, its number of durable writes, then re-run with a process death immediately before write w (even indices: every w in 1..W, FIFO schedule, small plans; odd indices: sampled w, random schedule policy and plan size), a sample of those with a second death during recovery (thorough: every write of the recovery run for the sampled first crashes); evaluations counts every simulated run; a run is non-trivial if " + nt + "; distinct = distinct trace signatures among the non-trivial runs; exhaustive is false because only the crash-point dimension of the enumerated executions is complete (see crash_points_enumerated / executions_fully_enumerated)"
+	}
+	for _, p := range []*propDef{
+		{ID: "C09", Engine: "crash", Level: "fault_enumeration", Rule: crashRule("the crash left a plan durably Running")},
+		{ID: "C10", Engine: "crash", Level: "fault_enumeration", Rule: crashRule("the crash left a plan durably Running")},
+		{ID: "C11", Engine: "crash", Level: "exploration", Rule: "one batch index = one generated store history: 2-5 small plans (never started, quick, failing, long-running) submitted and started at staggered instants by the real engine; it is run uninterrupted once, then re-run with a process death at a sampled durable write and a restart after a delay chosen around the configured maximum age (exactly at, 1 ns before / after the boundary, half, double, fixed delays), with MaxLastUpdate in {1 s, 10 s, default} and recovery on/off; a run is non-trivial if the store at the restart holds plans in >= 2 different statuses or a Running plan; distinct = distinct trace signatures among non-trivial runs"},
+	} {
+		p.QuickMs, p.ThorMs = 40_000, 600_000
+		props[p.ID] = p
+	}
 }
 
 func goEnv() []string {
@@ -390,7 +401,11 @@ func check(id, tier string) int {
 		}
 		nViol++
 		fmt.Printf("VIOLATION property=%s replay=%s\n", f.V.Prop, f.Replay)
-		fmt.Printf("  class: %s\n  first witness: run index %d, seed %d: %s\n  occurrences in this batch: %d\n", c, f.Index, f.Seed, f.V.Msg, f.Count)
+		if os.Getenv("VERIF_BRIEF") != "" {
+			fmt.Printf("  class: %s (x%d)\n", c, f.Count)
+		} else {
+			fmt.Printf("  class: %s\n  first witness: run index %d, seed %d: %s\n  occurrences in this batch: %d\n", c, f.Index, f.Seed, f.V.Msg, f.Count)
+		}
 	}
 	for _, h := range total.Harness {
 		fmt.Printf("HARNESS-TROUBLE %s\n", h)
